@@ -686,6 +686,12 @@ pub(crate) fn openat2<Fd: AsFd, P: AsRef<Path>>(
     // RESOLVE_IN_ROOT handles that correctly in a race-free way.
     let mut how = how.clone();
     how.flags |= libc::O_CLOEXEC as u64;
+    // Like openat(), never let the opened file become our controlling terminal.
+    // O_PATH descriptors cannot become one, and openat2(2) refuses O_NOCTTY in
+    // combination with O_PATH, so only add it for real opens.
+    if how.flags & libc::O_PATH as u64 == 0 {
+        how.flags |= libc::O_NOCTTY as u64;
+    }
 
     // The kernel takes a NUL-terminated string, so a path with an interior NUL
     // byte cannot be passed on as-is. openat(2) (through rustix) rejects such
